@@ -1,7 +1,9 @@
 /- C03 — equality, hashing and ordering agree with each other: property theorems.
 
    All statements are about the model `JanetModel.Value` (Value/Model.lean, Value/Struct.lean), for every number type
-   `N` satisfying `LawfulNum` (the laws of IEEE doubles other than NaN); `F64` (64-bit patterns) is such a type.
+   `N` satisfying `LawfulNum` (the laws of IEEE doubles other than NaN); the non-NaN patterns of `F64` (all 64-bit
+   patterns, IEEE `==` / `<`) are such a type, and the section "NaN" carries the laws over to the NaN-free values of a
+   model type that CONTAINS NaN.
    The model is tied to /repo/src/core/{value,util,struct,string}.c by Gen/Value.lean (regenerated constants and shape
    checks) and by the correspondence harness (checks/C03.py). -/
 import JanetModel.Value.Order
@@ -10,6 +12,10 @@ import JanetModel.Value.Struct
 import JanetModel.Value.StructLemmas
 import JanetModel.Value.SymCacheLemmas
 import JanetModel.Value.RobinPerm
+import JanetModel.Value.RobinDup
+import JanetModel.Value.LayoutTests
+import JanetModel.Value.NaN
+import JanetModel.Value.StringLoop
 
 namespace JanetModel.Props.C03
 open JanetModel.Value
@@ -195,8 +201,9 @@ end symcache
 PROVED in general (Value/Robin.lean, RobinUnique.lean, RobinPerm.lean): `struct_layout_canonical`,
 `struct_layout_canonical_general`, `struct_put_existing_key` below — the slot array built by `janet_struct_put` /
 `janet_struct_end` is a function of the set of accepted pairs alone, whatever the insertion order and collision pattern, any
-capacity, including runs that wrap around, ignored nil pairs, over-announced counts (rebuild).  Only insertion sequences
-that contain the SAME key twice are not covered by the general statement (see `struct_put_existing_key`).
+capacity, including runs that wrap around, ignored nil pairs, over-announced counts (rebuild).  Insertion sequences
+that contain the SAME key several times are covered by `struct_by_final_map` … `struct_flatten_first_value_wins` further down
+(session 3).
 Also established:
   * `struct_by_slots` above: equality of structs is element-wise equality of slot arrays (proved, all inputs);
   * `struct_put_capacity`: puts never change the capacity (proved, all inputs);
@@ -227,10 +234,7 @@ theorem struct_layout_canonical_general (raw₁ raw₂ : List (Slot N)) (proto :
 
 /-- **PROVED, all inputs** — duplicate keys: putting a key that is already in the struct never changes the layout; the
     probe reaches the slot of the equal key without displacing anything and (with `replace`) only its value is overwritten
-    (struct.c `status == 0`).  What is NOT proved: lifting this to "the struct is a function of the final key→value map"
-    for insertion sequences WITH duplicate keys (it needs that the layout does not depend on the values, i.e. that
-    `(build l).set p (k, v')` is the build of `l` with that value changed); sequences with duplicates are covered by the
-    kernel-checked tests below and by the correspondence. -/
+    (struct.c `status == 0`).  Lifted to whole insertion sequences with duplicate keys in `struct_by_final_map` below. -/
 theorem struct_put_existing_key (sl : List (Slot N)) (hrh : RH sl) (z : Nat) (hz : z < sl.length) (hez : ¬ Occ sl z)
     (key value : JVal N) (p : Nat) (hp : p < sl.length) (hop : Occ sl p) (heq : contentEq key (sg sl p).1 = true)
     (replace : Bool) :
@@ -254,32 +258,191 @@ theorem struct_by_content (kvs₁ kvs₂ : List (Slot N)) (proto : List (JVal N)
 theorem struct_put_capacity (st : StructBuild N) (key value : JVal N) (replace : Bool) :
     (structPutExt st key value replace).slots.length = st.slots.length := structPutExt_capacity st key value replace
 
-/-- with a duplicate of the first key (overwritten later), a nil value, a nil key; announced count = sequence length -/
-def noisy (kvs : List (Slot F64)) : List (Slot F64) :=
-  match kvs with
-  | [] => []
-  | (k, _) :: _ => (k, .kw [1]) :: kvs ++ [(.kw [2], .nil), (.nil, .bool true)]
+/- `struct_layout_canonical_partial` and `struct_layout_canonical_partial_cluster` (kernel-checked exhaustive tests of the
+   model, `decide +kernel`, ≈1 min of kernel time) live in Value/LayoutTests.lean under this namespace. -/
 
-theorem struct_layout_canonical_partial :
-    (layoutFamilies.all fun kvs =>
-      (permsOf kvs).all fun p =>
-        equals (structOf p) (structOf kvs) && equals (structOf (noisy p)) (structOf kvs) &&
-        equals (structOf p [structOf kvs]) (structOf kvs [structOf kvs.reverse])) = true := by
+/-! ### insertion sequences with duplicate keys: the struct is a function of the final key→value map (session 3)
+
+`finalMap raw` (Value/RobinDup.lean) is the association list obtained by reading the accepted puts of `raw` in order: a new
+key is appended, a key `=` to an earlier one keeps the EARLIER key object and takes the LATER value (`janet_struct_put`,
+`replace = 1`); `finalMapR false` keeps the earlier value (`janet_struct_put_ext(…, 0)`, struct/proto-flatten). -/
+
+/-- **PROVED, all inputs**: whatever the insertion sequence — the same key any number of times, nil keys / nil values
+    interspersed — and whatever count ≥ the number of accepted puts is announced (every caller in src/core announces the
+    number of pairs it is going to put), `janet_struct_begin(c)` / puts / `janet_struct_end` builds the struct of the
+    final key→value map.  Needs "the layout does not depend on the values" (`foldl_ins_map` via the lock-step lemma
+    `putLoop_rel`) and `putLoop_dup`. -/
+theorem struct_by_final_map (c : Nat) (raw : List (Slot N)) (proto : List (JVal N))
+    (hc : (raw.filter validPair).length ≤ c) : structOfCount c raw proto = structOf (finalMap raw) proto :=
+  structOfCount_finalMap c raw proto hc
+
+/-- … hence two insertion sequences with the same final map (as a set of pairs: any order) give the SAME slot array,
+    `struct_layout_canonical` generalised to sequences with duplicates -/
+theorem struct_layout_canonical_dups (c₁ c₂ : Nat) (raw₁ raw₂ : List (Slot N)) (proto : List (JVal N))
+    (hc₁ : (raw₁.filter validPair).length ≤ c₁) (hc₂ : (raw₂.filter validPair).length ≤ c₂)
+    (hperm : (finalMap raw₁).Perm (finalMap raw₂)) :
+    structOfCount c₁ raw₁ proto = structOfCount c₂ raw₂ proto := by
+  obtain ⟨hd, hv, _⟩ := finalMapR_spec true raw₁
+  rw [struct_by_final_map c₁ raw₁ proto hc₁, struct_by_final_map c₂ raw₂ proto hc₂]
+  exact structOf_perm proto hperm hv hd
+
+/-- **which value wins**: the final map has pairwise different keys, and a key maps to the value of the LAST accepted put
+    under an `=` key (nil: no such put) -/
+theorem struct_last_value_wins (raw : List (Slot N)) (k : JVal N) :
+    DistinctKeys (finalMap raw) ∧ mapGet (finalMap raw) k = lastPut (raw.filter validPair) k :=
+  ⟨(finalMapR_spec true raw).1, mapGet_finalMap raw k⟩
+
+/-- **up to `=`**: two insertion sequences whose final maps agree up to `=` of keys and values (so also when one says −0
+    where the other says +0, or uses a different but equal tuple as key) give structs that are `=`, hash alike and
+    compare as 0 -/
+theorem struct_by_map_content (c₁ c₂ : Nat) (raw₁ raw₂ : List (Slot N)) (proto : List (JVal N))
+    (hc₁ : (raw₁.filter validPair).length ≤ c₁) (hc₂ : (raw₂.filter validPair).length ≤ c₂)
+    (h : MapEquiv (finalMap raw₁) (finalMap raw₂)) :
+    equals (structOfCount c₁ raw₁ proto) (structOfCount c₂ raw₂ proto) = true ∧
+    hash (structOfCount c₁ raw₁ proto) = hash (structOfCount c₂ raw₂ proto) ∧
+    jcompare (structOfCount c₁ raw₁ proto) (structOfCount c₂ raw₂ proto) = .eq := by
+  have he : equals (structOfCount c₁ raw₁ proto) (structOfCount c₂ raw₂ proto) = true := by
+    rw [equals_iff_content]; exact structOfCount_mapEquiv c₁ c₂ raw₁ raw₂ proto hc₁ hc₂ h
+  exact ⟨he, equals_hash _ _ he, (compare_eq_zero_iff_equals _ _).mpr he⟩
+
+/-- `struct/proto-flatten` (`replace = 0`): the struct of the keep-first map; a key maps to the value of the FIRST
+    accepted put under an `=` key -/
+theorem struct_flatten_first_value_wins (c : Nat) (raw : List (Slot N)) (hc : (raw.filter validPair).length ≤ c) (k : JVal N) :
+    structOfCountKeep c raw = structOf (finalMapR false raw) [] ∧
+    mapGet (finalMapR false raw) k = mapGet (raw.filter validPair) k :=
+  ⟨structOfCountKeep_finalMap c raw hc, mapGet_finalMapKeep raw k⟩
+
+/-- **the hypothesis on the announced count is necessary** (what the C does NOT guarantee): with `janet_struct_begin(2)`
+    and three puts the "avoid extra items" test drops the third put even when it only replaces a value, so two sequences
+    with the same final map {a→3, b→2} give different structs.  No caller in src/core announces fewer pairs than it puts;
+    the harness replays this through the C API (`pool dups`, under-announced cases) and sees the same two structs. -/
+theorem struct_put_extra_dropped_witness :
+    let a : JVal F64 := .kw [97]; let b : JVal F64 := .kw [98]
+    let one : JVal F64 := .num ⟨0x3FF0000000000000⟩; let two : JVal F64 := .num ⟨0x4000000000000000⟩
+    let three : JVal F64 := .num ⟨0x4008000000000000⟩
+    finalMap [(a, one), (b, two), (a, three)] = [(a, three), (b, two)] ∧
+    finalMap [(a, one), (a, three), (b, two)] = [(a, three), (b, two)] ∧
+    structOfCount 2 [(a, one), (a, three), (b, two)] [] = structOf [(a, three), (b, two)] ∧
+    structOfCount 2 [(a, one), (b, two), (a, three)] [] = structOf [(a, one), (b, two)] ∧
+    equals (structOfCount 2 [(a, one), (b, two), (a, three)] []) (structOfCount 2 [(a, one), (a, three), (b, two)] []) = false := by
+  refine ⟨rfl, rfl, rfl, rfl, ?_⟩
   decide +kernel
 
-/-- same kind of kernel-checked test on a six-key probe cluster with eviction (all 720 insertion orders) -/
-theorem struct_layout_canonical_partial_cluster :
-    ((permsOf clusterFamily).all fun p => equals (structOf p) (structOf clusterFamily)) = true := by
-  decide +kernel
+/-- non-vacuity: a sequence with a key put three times (once as −0 after +0), a nil value and a nil key; the first key
+    object (+0) stays, the last value wins -/
+example : finalMap [((.num ⟨0⟩ : JVal F64), .kw [1]), (.kw [2], .nil), (.num ⟨0x8000000000000000⟩, .kw [3]), (.nil, .kw [4]),
+    (.kw [5], .kw [6]), (.num ⟨0⟩, .kw [7])] = [(.num ⟨0⟩, .kw [7]), (.kw [5], .kw [6])] := rfl
+example : MapEquiv [((.num ⟨0⟩ : JVal F64), (.kw [7] : JVal F64))] [(.num ⟨0x8000000000000000⟩, .kw [7])] :=
+  ⟨_, List.Perm.refl _, rfl, fun i => by
+    cases i with
+    | zero => exact ⟨by decide, by decide⟩
+    | succ i => exact ⟨rfl, rfl⟩⟩
+
+/-! ### string.c loops (session 3)
+
+`janet_string_compare` (lengths, `memcmp` over the common prefix, sign, length tiebreak) and `janet_string_equal`
+(= `janet_string_equalconst`: hash and length pre-check, pointer short-cut, `memcmp`) are mirrored statement by statement in
+Value/StringLoop.lean; what `janet_compare` / `janet_equals` of the model do on strings, symbols, keywords is exactly that. -/
+
+omit [LawfulNum N] in
+theorem string_compare_loop_is_lex (a b : List UInt8) :
+    stringCompareC a b = ordInt (bytesCompare a b) ∧
+    stringCompareC a b = ordInt (jcompare (.str a : JVal N) (.str b)) ∧
+    stringCompareC a b = ordInt (jcompare (.sym a : JVal N) (.sym b)) ∧
+    stringCompareC a b = ordInt (jcompare (.kw a : JVal N) (.kw b)) :=
+  ⟨stringCompareC_eq a b, stringCompareC_eq a b, stringCompareC_eq a b, stringCompareC_eq a b⟩
+
+omit [LawfulNum N] in
+theorem string_equal_loop_is_byte_equality (a b : List UInt8) (samePtr : Bool) (hptr : samePtr = true → a = b) :
+    stringEqualC a b samePtr = (a == b) ∧ stringEqualC a b samePtr = equals (.str a : JVal N) (.str b) :=
+  stringEqualC_eq a b samePtr hptr
+
+/-- non-vacuity: a proper prefix sorts first; equal hash and length do not make two strings equal ("aa" / "b@" collide) -/
+example : stringCompareC [97, 98] [97, 98, 0] = -1 ∧ stringCompareC [255] [1, 2] = 1 := by decide
+example : stringHash [97, 97] = stringHash [98, 64] ∧ stringEqualC [97, 97] [98, 64] false = false := by decide
+
+/-! ### NaN (session 3)
+
+The property excludes NaN from the laws; the model type does not.  For ANY number type `M` with the laws of all IEEE doubles
+(`LawfulNaNNum`: a NaN is `==` / `<` nothing; `F64` is one), the values of `JVal M` without a NaN at any depth (`nanFree`)
+satisfy every law above — they are the image of `JVal (NonNaN M)` under an embedding that commutes with `janet_hash`,
+`janet_equals`, `janet_compare` (Value/NaN.lean).  On NaN itself the laws fail, and struct construction refuses NaN keys. -/
+
+section nan
+variable {M : Type} [NumLike M] [LawfulNaNNum M]
+
+/-- **the laws hold on the NaN-free values of a model type that contains NaN**: `=` reflexive, symmetric, transitive; equal ⇒
+    same hash; `compare` antisymmetric, transitive (also strictly), total; `compare = 0 ⇔ =`; `< <= > >=` are that order -/
+theorem laws_on_nan_free_values (a b c : JVal M) (ha : nanFree a = true) (hb : nanFree b = true) (hc : nanFree c = true) :
+    equals a a = true ∧ equals a b = equals b a ∧ (equals a b = true → equals b c = true → equals a c = true) ∧
+    (equals a b = true → hash a = hash b) ∧
+    jcompare b a = (jcompare a b).swap ∧ (jcompare a b ≠ .gt → jcompare b c ≠ .gt → jcompare a c ≠ .gt) ∧
+    (jcompare a b = .lt → jcompare b c ≠ .gt → jcompare a c = .lt) ∧ (jcompare a b ≠ .gt → jcompare b c = .lt → jcompare a c = .lt) ∧
+    (jle a b = true ∨ jle b a = true) ∧ (jcompare a b = .eq ↔ equals a b = true) ∧
+    (jlt a b = (jcompare a b == .lt) ∧ jgt a b = jlt b a ∧ jge a b = jle b a ∧ jle a b = (jlt a b || equals a b) ∧ jlt a b = !jge a b) := by
+  obtain ⟨a', rfl⟩ := lift_surj a ha
+  obtain ⟨b', rfl⟩ := lift_surj b hb
+  obtain ⟨c', rfl⟩ := lift_surj c hc
+  unfold jle jlt jgt jge
+  simp only [equals_lift, hash_lift, jcompare_lift]
+  have hl := lt_le_gt_ge_agree a' b'
+  unfold jle jlt jgt jge at hl
+  have ht := compare_total a' b'
+  unfold jle at ht
+  exact ⟨equals_refl a', equals_symm a' b', equals_trans a' b' c', equals_hash a' b', compare_antisymm a' b',
+    compare_trans a' b' c', compare_lt_of_lt_of_le a' b' c', compare_lt_of_le_of_lt a' b' c', ht,
+    compare_eq_zero_iff_equals a' b', trivial, hl.2⟩
+
+/-- **why NaN is excluded**: a NaN is not `=` to itself, compares as "greater" in BOTH directions with every number, and a
+    tuple holding it is not `=` to itself by content (the C returns true only through its pointer short-cut `t1 == t2`) -/
+theorem nan_breaks_the_laws (n m : M) (h : NumLike.isNaN n = true) :
+    equals (.num n : JVal M) (.num n) = false ∧ jcompare (.num n : JVal M) (.num m) = .gt ∧ jcompare (.num m : JVal M) (.num n) = .gt ∧
+    equals (.tuple false [.num n] : JVal M) (.tuple false [.num n]) = false :=
+  ⟨nan_not_equal_self n h, (nan_compare n m h).1, (nan_compare n m h).2.1, (nan_compare n m h).2.2⟩
+
+omit [LawfulNaNNum M] in
+/-- **`janet_struct_put_ext` ignores a NaN key** — any value, any flag, any state of the build (struct.c: the
+    `janet_checktype(key, JANET_NUMBER) && isnan(…)` guard, regenerated: `struct_put_guards_tie`) -/
+theorem struct_put_ignores_nan_key (st : StructBuild M) (n : M) (h : NumLike.isNaN n = true) (v : JVal M) (r : Bool) :
+    structPutExt st (.num n) v r = st := structPutExt_nan_key st n h v r
+
+/-- **struct layout with NaN in the model**: an insertion sequence over `JVal M` whose pairs are either NaN-keyed (ignored)
+    or NaN-free — duplicates, nil keys / values, any announced count covering the accepted puts — builds the (embedded)
+    struct of the final key→value map of its NaN-free pairs; so all of `struct_layout_canonical…` / `struct_by_map_content`
+    hold for it -/
+theorem struct_by_final_map_nan (c : Nat) (raw : List (Slot M)) (proto : List (JVal M))
+    (rawNN : List (Slot (NonNaN M))) (protoNN : List (JVal (NonNaN M)))
+    (hraw : raw.filter (fun kv => !isNaNKey kv.1) = rawNN.map liftSlot) (hproto : proto = liftList protoNN)
+    (hc : (rawNN.filter validPair).length ≤ c) :
+    structOfCount c raw proto = lift (structOf (finalMap rawNN) protoNN) := by
+  rw [structOfCount_drop_nan_keys, hraw, hproto, structOfCount_lift, struct_by_final_map c rawNN protoNN hc]
+
+end nan
+
+/-- the model's early-return guards of `janet_struct_put_ext` (nil key or value, NaN key, struct full — in this order) and
+    what its duplicate-key branch writes (the value only: the first key object stays) are what the translator reads off
+    struct.c on this run; `janet_table_put` refuses nil and NaN keys too -/
+theorem struct_put_guards_tie :
+    JanetModel.Gen.Value.structPutGuards = structPutExt.guards ∧ JanetModel.Gen.Value.structDupWrites = structPutExt.dupWrites ∧
+    "nilKey" ∈ JanetModel.Gen.Value.tablePutGuards ∧ "nanKey" ∈ JanetModel.Gen.Value.tablePutGuards := by decide
+
+/-- non-vacuity: the quiet NaN pattern is a NaN of `F64`, it is refused as a key, and `F64` has the laws of all doubles -/
+example : LawfulNaNNum F64 := inferInstance
+example : NumLike.isNaN (⟨0x7FF8000000000000⟩ : F64) = true := by decide
+example : NumLike.isNaN (⟨0x7FF0000000000000⟩ : F64) = false := by decide   -- +inf is not
+example : nanFree (.tuple true [.num ⟨0x7FF0000000000000⟩, .struct [.kw [1], .num ⟨0⟩] []] : JVal F64) = true := by decide
+example : nanFree (.tuple true [.num ⟨0xFFF8000000000001⟩] : JVal F64) = false := by decide
+/-- a tuple HOLDING NaN is accepted as a struct key (only a top-level NaN is refused) -/
+example : isNaNKey (.tuple false [.num ⟨0x7FF8000000000000⟩] : JVal F64) = false := by decide
 
 /-! ### non-vacuity: the executable doubles are lawful, and the statements speak about non-trivial values -/
 
-example : LawfulNum F64 := inferInstance
+example : LawfulNum (NonNaN F64) := inferInstance
 
 /-- −0 and +0 are equal, hash alike, also inside tuples and as struct keys -/
 example : equals (.num ⟨0⟩ : JVal F64) (.num ⟨0x8000000000000000⟩) = true := by decide
-example : Value.hash (JVal.tuple false [.num ⟨0⟩] : JVal F64) = Value.hash (JVal.tuple false [.num ⟨0x8000000000000000⟩] : JVal F64) :=
-  equals_hash _ _ (by decide)
+example : Value.hash (JVal.tuple false [.num ⟨0⟩] : JVal F64) = Value.hash (JVal.tuple false [.num ⟨0x8000000000000000⟩] : JVal F64) := by
+  decide
 /-- bracketed and parenthesised tuples with the same elements differ -/
 example : equals (.tuple true [.nil] : JVal F64) (.tuple false [.nil]) = false := by decide
 example : jcompare (.tuple true [.nil] : JVal F64) (.tuple false [.nil]) = .gt := by decide
